@@ -1,13 +1,13 @@
 //go:build verif
 
 // Package c10 is the C10 correspondence driver ("nothing is reused from a
-// cache beyond its validity").  It lives in an overlay-only package and
-// reaches the unexported getCacheTTL functions through two thin export files
-// injected into the authenticators and clientcredentials packages.
+// cache beyond its validity").  It lives in an overlay-only package and uses
+// exported identifiers of /repo only (mechanism factory, Execute,
+// clientcredentials.Config.Token, httpcache.RoundTripper, the cache backends),
+// so renaming unexported functions or fields does not break it.
 //
 // Case kinds (see coq/Run/Eval_C10.v):
 //
-//	fn    one call of a real getCacheTTL
 //	exec  a mechanism created by the REAL mechanism factory (prototype
 //	      cache_ttl + rule-level cache_ttl), executed once against a recording
 //	      cache and local httptest endpoints
@@ -67,7 +67,6 @@ import (
 	"github.com/dadrus/heimdall/internal/keyholder"
 	"github.com/dadrus/heimdall/internal/otel/metrics/certificate"
 	"github.com/dadrus/heimdall/internal/rules/mechanisms"
-	"github.com/dadrus/heimdall/internal/rules/mechanisms/authenticators"
 	"github.com/dadrus/heimdall/internal/rules/mechanisms/subject"
 	"github.com/dadrus/heimdall/internal/rules/oauth2/clientcredentials"
 	"github.com/dadrus/heimdall/internal/watcher"
@@ -96,6 +95,13 @@ type c10Case struct {
 	Session bool   `json:"session,omitempty"`
 	// exec/hist: the rule-level config carries another (harmless) option, so WithConfig runs even without a rule-level ttl
 	RuleOther bool `json:"rule_other,omitempty"`
+	// exec jwtkey: x5c chain [leaf, root]; Chain = NotAfter of the root relative to now (seconds), nil = the leaf alone
+	Chain *int64 `json:"chain,omitempty"`
+	// exec jwtkey: prototype with validate_jwk: true and a trust store (the root)
+	Validate bool `json:"validate,omitempty"`
+	// http: time between the first and the second request (redis only: FastForward); the transport fails on the second
+	Adv   int64 `json:"adv,omitempty"`
+	Fail2 bool  `json:"fail2,omitempty"`
 	// exec cc: through the real oauth2_client_credentials finalizer (prototype + rule-level cache_ttl) instead of Config.Token
 	ViaFin bool `json:"via_finalizer,omitempty"`
 
@@ -117,6 +123,7 @@ type c10Resp struct {
 	ExpRaw  string `json:"exp_raw,omitempty"` // literal Expires header (overrides Expires)
 	LastMod *int64 `json:"last_mod,omitempty"`
 	Vary    string `json:"vary,omitempty"`
+	Age     string `json:"age,omitempty"` // literal Age header
 }
 
 type c10Op struct {
@@ -127,9 +134,14 @@ type c10Op struct {
 }
 
 type c10Ev struct {
-	Adv  int64    `json:"adv,omitempty"`
-	Key  int      `json:"key"`
-	Resp *c10Resp `json:"resp,omitempty"` // hist over the round tripper
+	Adv int64 `json:"adv,omitempty"`
+	Key int   `json:"key"`
+	// expiry the remote system reports for this request, relative to now (seconds; expires_in for client credentials); nil = far / none
+	Delta *int64   `json:"delta,omitempty"`
+	Resp  *c10Resp `json:"resp,omitempty"` // hist over the round tripper
+	// kind mix: the rule this request runs under (prototype cache_ttl + rule-level cache_ttl)
+	Conf *int64 `json:"conf,omitempty"`
+	Rule *int64 `json:"rule,omitempty"`
 }
 
 func p64(v int64) *int64 { return &v }
@@ -196,26 +208,37 @@ func (r *recCache) begin(cur int) {
 	r.mu.Unlock()
 }
 
-// summary of one request: was the cache looked up, did it hit (and what), which ttl went to Set
-func (r *recCache) summary() (lookup, hit bool, origin int, set *int64) {
+// summary of one request: was the cache looked up, did it hit (and what), the ttl of the first Set, the number of Sets
+type reqSum struct {
+	lookup, hit bool
+	origin      int
+	set         *int64
+	nsets       int
+}
+
+func (r *recCache) summary() reqSum {
 	r.mu.Lock()
 	defer r.mu.Unlock()
 
-	origin = -1
+	o := reqSum{origin: -1}
 
 	for _, e := range r.log {
 		if e.get {
-			lookup = true
+			o.lookup = true
 
 			if e.hit {
-				hit, origin = true, e.origin
+				o.hit, o.origin = true, e.origin
 			}
-		} else if set == nil {
-			set = p64(int64(e.ttl))
+		} else {
+			if o.set == nil {
+				o.set = p64(int64(e.ttl))
+			}
+
+			o.nsets++
 		}
 	}
 
-	return
+	return o
 }
 
 // nullCache: never stores anything
@@ -240,7 +263,8 @@ type env struct {
 	srv  *httptest.Server
 	ctr  atomic.Int64
 	key  *ecdsa.PrivateKey
-	jwks atomic.Value // []byte
+	ca   *ecdsa.PrivateKey // root of the x5c chains
+	jwks atomic.Value      // []byte
 	mf   mechanisms.MechanismFactory
 	pal  []*int64 // prototype ttl palette
 	palF []*int64 // jwt finalizer ttl palette
@@ -263,7 +287,19 @@ func newEnv(t *testing.T) *env {
 		t.Fatal(err)
 	}
 
+	if e.ca, err = ecdsa.GenerateKey(elliptic.P256(), rand.Reader); err != nil {
+		t.Fatal(err)
+	}
+
 	e.jwks.Store([]byte(`{"keys":[]}`))
+
+	// trust store of the validate_jwk prototypes: the root, valid for ten years
+	tsPath := filepath.Join(t.TempDir(), "roots.pem")
+	if err = os.WriteFile(tsPath, pem.EncodeToMemory(&pem.Block{
+		Type: "CERTIFICATE", Bytes: e.rootCert(time.Now().Add(87600 * time.Hour)).Raw,
+	}), 0o600); err != nil {
+		t.Fatal(err)
+	}
 
 	mux := http.NewServeMux()
 	// introspection endpoint: the token tells what to answer: T.<exp|none>.<n>
@@ -276,6 +312,13 @@ func newEnv(t *testing.T) *env {
 			w.Write([]byte(`{"active":false}`))
 
 			return
+		}
+
+		if parts[1] == "tab" { // the expiry to report is set by the driver per request
+			parts[1] = "none"
+			if v, ok := e.tokTab.Load(r.PostForm.Get("token")); ok {
+				parts[1] = v.(string) //nolint:forcetypeassert
+			}
 		}
 
 		exp := ""
@@ -294,6 +337,13 @@ func newEnv(t *testing.T) *env {
 			w.WriteHeader(http.StatusUnauthorized)
 
 			return
+		}
+
+		if parts[1] == "tab" {
+			parts[1] = "none"
+			if v, ok := e.tokTab.Load(r.Header.Get("X-Auth-Data")); ok {
+				parts[1] = v.(string) //nolint:forcetypeassert
+			}
 		}
 
 		exp := ""
@@ -336,7 +386,7 @@ func newEnv(t *testing.T) *env {
 		w.Header().Set("Content-Type", "application/json")
 
 		exp := ""
-		if len(parts) == 3 && parts[1] != "none" {
+		if len(parts) == 3 && parts[1] != "none" && parts[1] != "tab" {
 			exp = `,"expires_in":` + parts[1]
 		}
 
@@ -384,6 +434,11 @@ func newEnv(t *testing.T) *env {
 				"jwks_endpoint": map[string]any{"url": e.srv.URL + "/jwks"},
 				"assertions":    map[string]any{"issuers": []any{issuer}},
 				"validate_jwk":  false,
+			}, "cache_ttl", v)},
+			config.Mechanism{ID: fmt.Sprintf("jwtkeyv_%d", i), Type: "jwt", Config: withTTL(config.MechanismConfig{
+				"jwks_endpoint": map[string]any{"url": e.srv.URL + "/jwks"},
+				"assertions":    map[string]any{"issuers": []any{issuer}},
+				"trust_store":   tsPath, // validate_jwk defaults to true
 			}, "cache_ttl", v)},
 		)
 
@@ -480,21 +535,51 @@ func (e *env) close() {
 	}
 }
 
-// JWKS with the key "k1", optionally with a self-signed certificate expiring at notAfter
-func (e *env) setJWKS(notAfter *int64) {
+func (e *env) rootCert(notAfter time.Time) *x509.Certificate {
+	tpl := &x509.Certificate{
+		SerialNumber: big.NewInt(e.ctr.Add(1)), Subject: pkix.Name{CommonName: "c10 root"},
+		NotBefore: time.Now().Add(-48 * time.Hour), NotAfter: notAfter,
+		IsCA: true, BasicConstraintsValid: true, KeyUsage: x509.KeyUsageCertSign | x509.KeyUsageDigitalSignature,
+	}
+
+	der, err := x509.CreateCertificate(rand.Reader, tpl, tpl, &e.ca.PublicKey, e.ca)
+	if err != nil {
+		e.t.Fatal(err)
+	}
+
+	crt, err := x509.ParseCertificate(der)
+	if err != nil {
+		e.t.Fatal(err)
+	}
+
+	return crt
+}
+
+// JWKS with the key "k1": without certificate (leafNA nil), with a self-signed leaf (rootNA nil), or with the
+// chain [leaf issued by the root, root] whose two certificates expire at different instants
+func (e *env) setJWKS(leafNA, rootNA *int64) {
 	jwk := jose.JSONWebKey{Key: &e.key.PublicKey, KeyID: "k1", Algorithm: "ES256", Use: "sig"}
 
-	if notAfter != nil {
-		na := time.Unix(*notAfter, 0)
+	if leafNA != nil {
+		na := time.Unix(*leafNA, 0)
 		tpl := &x509.Certificate{
 			SerialNumber: big.NewInt(e.ctr.Add(1)),
 			Subject:      pkix.Name{CommonName: "c10"},
-			NotBefore:    na.Add(-48 * time.Hour),
+			NotBefore:    time.Now().Add(-48 * time.Hour),
 			NotAfter:     na,
 			KeyUsage:     x509.KeyUsageDigitalSignature,
 		}
 
-		der, err := x509.CreateCertificate(rand.Reader, tpl, tpl, &e.key.PublicKey, e.key)
+		parent, signer := tpl, e.key
+
+		var root *x509.Certificate
+
+		if rootNA != nil {
+			root = e.rootCert(time.Unix(*rootNA, 0))
+			parent, signer = root, e.ca
+		}
+
+		der, err := x509.CreateCertificate(rand.Reader, tpl, parent, &e.key.PublicKey, signer)
 		if err != nil {
 			e.t.Fatal(err)
 		}
@@ -505,6 +590,9 @@ func (e *env) setJWKS(notAfter *int64) {
 		}
 
 		jwk.Certificates = []*x509.Certificate{crt}
+		if root != nil {
+			jwk.Certificates = append(jwk.Certificates, root)
+		}
 	}
 
 	b, err := json.Marshal(jose.JSONWebKeySet{Keys: []jose.JSONWebKey{jwk}})
@@ -624,85 +712,6 @@ func dur(v *int64) *time.Duration {
 
 const maxTries = 25
 
-// ---------------------------------------------------------------- kind fn
-
-type fnObs struct {
-	Now  int64  `json:"now"`
-	Dmax int64  `json:"dmax"`
-	Exp  *int64 `json:"exp,omitempty"`
-	TTL  int64  `json:"ttl"`
-}
-
-func runFn(c *c10Case) (fnObs, string) {
-	var o fnObs
-
-	for try := 0; try < maxTries; try++ {
-		if secondsBased(c.Mech) {
-			s0 := time.Now().Unix()
-
-			var exp *int64
-			if c.Delta != nil {
-				exp = p64(s0 + *c.Delta)
-			}
-
-			var ttl time.Duration
-
-			switch c.Mech {
-			case "intro":
-				ttl = authenticators.VerifC10IntrospectionTTL(dur(c.St), exp)
-			case "jwtkey":
-				ttl = authenticators.VerifC10JwtKeyTTL(dur(c.St), exp)
-			default:
-				ttl = authenticators.VerifC10GenericTTL(time.Duration(*c.St), c.Session, exp)
-			}
-
-			if time.Now().Unix() != s0 {
-				continue // the second flipped during the call
-			}
-
-			o = fnObs{Now: s0 * sec, Exp: exp, TTL: int64(ttl)}
-
-			break
-		}
-
-		// client credentials: nanoseconds, bracket
-		t0 := time.Now()
-
-		var (
-			expiry time.Time
-			exp    *int64
-		)
-
-		if c.Delta != nil {
-			expiry = t0.Add(time.Duration(*c.Delta))
-			exp = p64(t0.UnixNano() + *c.Delta)
-		}
-
-		ttl := clientcredentials.VerifC10TTL(dur(c.St), expiry)
-		dmax := int64(time.Since(t0))
-
-		if c.Delta != nil {
-			if rem := *c.Delta - 5*sec; rem > 0 && rem <= dmax+1000 {
-				continue // sign of the remaining lifetime not determined by the bracket
-			}
-		}
-
-		o = fnObs{Now: t0.UnixNano(), Dmax: dmax, Exp: exp, TTL: int64(ttl)}
-
-		break
-	}
-
-	st := c.St
-	if c.Mech == "generic" && !c.Session {
-		// no session lifespan object: the model's "no expiry information"
-		o.Exp = nil
-	}
-
-	coq := vf.CoqApp("CFn", mechCoq[c.Mech], optZ(st), optZ(o.Exp), vf.CoqZ(o.Now), vf.CoqZ(o.Dmax), vf.CoqZ(o.TTL))
-
-	return o, coq
-}
-
 // ---------------------------------------------------------------- kind exec
 
 type execObs struct {
@@ -712,6 +721,7 @@ type execObs struct {
 	OK     bool   `json:"ok"`
 	Lookup bool   `json:"lookup"`
 	Set    *int64 `json:"set,omitempty"`
+	NSets  int    `json:"nsets,omitempty"`
 	TokExp *int64 `json:"tok_exp,omitempty"`
 	Err    string `json:"err,omitempty"`
 }
@@ -758,10 +768,23 @@ func newReq(ctx context.Context, hdr map[string]string) *requestcontext.RequestC
 // rule-level override) with subject/key `key`; exp is the absolute expiry to be
 // reported by the remote system.  Returns error text ("" = success) and the
 // token expiry for the jwt finalizer.
-func (e *env) execOnce(ctx context.Context, c *c10Case, key int, exp *int64) (string, *int64, error) {
+// tab != "": the credential (token / session value / client id) is the same for every request of that key and the
+// expiry to report is handed to the endpoint through a table, so requests with different expiries share a cache key.
+func (e *env) execOnce(ctx context.Context, c *c10Case, key int, exp *int64, tab string) (string, *int64, error) {
 	expS := "none"
 	if exp != nil {
 		expS = strconv.FormatInt(*exp, 10)
+	}
+
+	cred := func(prefix string) string {
+		if tab == "" {
+			return fmt.Sprintf("%s.%s.k%d", prefix, expS, key)
+		}
+
+		v := fmt.Sprintf("%s.tab.%s-k%d", prefix, tab, key)
+		e.tokTab.Store(v, expS)
+
+		return v
 	}
 
 	sub := &subject.Subject{ID: fmt.Sprintf("u%d", key), Attributes: map[string]any{}}
@@ -773,11 +796,16 @@ func (e *env) execOnce(ctx context.Context, c *c10Case, key int, exp *int64) (st
 			return "", nil, err
 		}
 
-		_, xerr := a.Execute(newReq(ctx, map[string]string{"Authorization": fmt.Sprintf("Bearer T.%s.k%d", expS, key)}))
+		_, xerr := a.Execute(newReq(ctx, map[string]string{"Authorization": "Bearer " + cred("T")}))
 
 		return errText(xerr), nil, nil
 	case "jwtkey":
-		a, err := e.mf.CreateAuthenticator("1alpha4", fmt.Sprintf("jwtkey_%d", palIndex(e.pal, c.Conf)), c.ruleConf("cache_ttl"))
+		proto := "jwtkey"
+		if c.Validate {
+			proto = "jwtkeyv"
+		}
+
+		a, err := e.mf.CreateAuthenticator("1alpha4", fmt.Sprintf("%s_%d", proto, palIndex(e.pal, c.Conf)), c.ruleConf("cache_ttl"))
 		if err != nil {
 			return "", nil, err
 		}
@@ -792,7 +820,7 @@ func (e *env) execOnce(ctx context.Context, c *c10Case, key int, exp *int64) (st
 			return "", nil, err
 		}
 
-		_, xerr := a.Execute(newReq(ctx, map[string]string{"X-Session": fmt.Sprintf("S.%s.k%d", expS, key)}))
+		_, xerr := a.Execute(newReq(ctx, map[string]string{"X-Session": cred("S")}))
 
 		return errText(xerr), nil, nil
 	case "remote":
@@ -854,7 +882,7 @@ func (e *env) execOnce(ctx context.Context, c *c10Case, key int, exp *int64) (st
 		}
 
 		cfg := &clientcredentials.Config{
-			TokenURL: e.srv.URL + "/token", ClientID: fmt.Sprintf("C.%s.k%d", expS, key), ClientSecret: "s", TTL: dur(c.Conf),
+			TokenURL: e.srv.URL + "/token", ClientID: cred("C"), ClientSecret: "s", TTL: dur(c.Conf),
 		}
 
 		_, xerr := cfg.Token(ctx)
@@ -873,8 +901,16 @@ func errText(err error) string {
 	return "error: " + err.Error()
 }
 
-func (e *env) runExec(c *c10Case) (execObs, string) {
+// outcome of the attempts to pin the timing of a case down
+const (
+	timingOK      = ""
+	timingSkipped = "skipped:timing" // clock second flipped / bracket too wide on every attempt
+)
+
+func (e *env) runExec(c *c10Case) (execObs, string, string) {
 	var o execObs
+
+	timing := timingSkipped
 
 	for try := 0; try < maxTries; try++ {
 		rec := newRec(nullCache{})
@@ -893,19 +929,28 @@ func (e *env) runExec(c *c10Case) (execObs, string) {
 		}
 
 		if c.Mech == "jwtkey" {
-			e.setJWKS(exp)
+			var root *int64
+			if c.Chain != nil && exp != nil {
+				root = p64(s0 + *c.Chain)
+			}
+
+			e.setJWKS(exp, root)
 		}
 
 		rec.begin(0)
 
-		etxt, tokExp, err := e.execOnce(ctx, c, 1, exp)
+		etxt, tokExp, err := e.execOnce(ctx, c, 1, exp, "")
 		if err != nil {
-			e.t.Fatalf("exec %+v: %v", c, err)
+			panic(fmt.Sprintf("exec %+v: %v", c, err))
 		}
 
 		dmax := int64(time.Since(t0))
-		lookup, _, _, set := rec.summary()
-		o = execObs{OK: etxt == "", Lookup: lookup, Set: set, TokExp: tokExp, Err: etxt}
+		sum := rec.summary()
+		o = execObs{OK: etxt == "", Lookup: sum.lookup, Set: sum.set, NSets: sum.nsets, TokExp: tokExp, Err: etxt}
+
+		if dmax > 4*sec {
+			continue // outside the hypothesis of the theorems (max_delay)
+		}
 
 		if secondsBased(c.Mech) {
 			if time.Now().Unix() != s0 {
@@ -917,11 +962,10 @@ func (e *env) runExec(c *c10Case) (execObs, string) {
 			o.Now, o.Dmax = t0.UnixNano(), dmax
 			if c.Mech == "cc" && exp != nil {
 				o.Exp = p64(t0.UnixNano() + *exp*sec)
-				if rem := *exp*sec - 5*sec; rem > 0 && rem <= dmax+1000 {
-					continue
-				}
 			}
 		}
+
+		timing = timingOK
 
 		break
 	}
@@ -931,21 +975,35 @@ func (e *env) runExec(c *c10Case) (execObs, string) {
 		exp = nil
 	}
 
-	coq := vf.CoqApp("CExec", mechCoq[c.Mech], optZ(c.Conf), optZ(c.Rule), optZ(exp), vf.CoqZ(o.Now), vf.CoqZ(o.Dmax),
-		vf.CoqApp("eo", vf.CoqBool(o.OK), vf.CoqBool(o.Lookup), optZ(o.Set), optZ(o.TokExp)))
+	set := o.Set
+	if o.NSets > 1 {
+		// more than one Set in one request: the model makes at most one; report the largest ttl
+		set = p64(1 << 62)
+	}
 
-	return o, coq
+	coq := vf.CoqApp("CExec", mechCoq[c.Mech], optZ(c.Conf), optZ(c.Rule), optZ(exp), vf.CoqZ(o.Now), vf.CoqZ(o.Dmax),
+		vf.CoqApp("eo", vf.CoqBool(o.OK), vf.CoqBool(o.Lookup), optZ(set), optZ(o.TokExp)))
+
+	return o, coq, timing
 }
 
 // ---------------------------------------------------------------- kind http
 
 type stubTransport struct {
-	calls atomic.Int64
-	make  func(n int64, req *http.Request) *http.Response
+	calls    atomic.Int64
+	failFrom int64 // > 0: the n-th and later calls fail (remote system down)
+	make     func(n int64, req *http.Request) *http.Response
 }
 
+var errRemoteDown = errors.New("c10: remote system down")
+
 func (s *stubTransport) RoundTrip(req *http.Request) (*http.Response, error) {
-	return s.make(s.calls.Add(1), req), nil
+	n := s.calls.Add(1)
+	if s.failFrom > 0 && n >= s.failFrom {
+		return nil, errRemoteDown
+	}
+
+	return s.make(n, req), nil
 }
 
 func (r *c10Resp) header(now time.Time) http.Header {
@@ -969,6 +1027,10 @@ func (r *c10Resp) header(now time.Time) http.Header {
 
 	if r.Vary != "" {
 		h.Set("Vary", r.Vary)
+	}
+
+	if r.Age != "" {
+		h.Set("Age", r.Age)
 	}
 
 	if r.LastMod != nil {
@@ -1009,35 +1071,100 @@ func oracle(req *http.Request, status int, h http.Header) (bool, *int64) {
 	return true, p64(int64(expires.Sub(obj.NowUTC)))
 }
 
+// hvals: the driver's OWN reading of the freshness-relevant header values (RFC 7234 4.2, 5.1, 5.3, 7.1.1.2 of RFC
+// 7231), independent of pquerna/cachecontrol: max-age (the last valid one of all Cache-Control fields, s-maxage does
+// not concern a private cache), Expires (absent / unparsable / instant), Date, Age (non-negative integer, else 0)
+type hvals struct {
+	MaxAge  *int64 `json:"max_age,omitempty"` // ns
+	Expires *int64 `json:"expires,omitempty"` // ns instant
+	BadExp  bool   `json:"bad_expires,omitempty"`
+	Date    *int64 `json:"date,omitempty"` // ns instant
+	Age     int64  `json:"age,omitempty"`  // ns
+}
+
+func parseHvals(h http.Header) hvals {
+	var v hvals
+
+	for _, field := range h.Values("Cache-Control") {
+		for _, d := range strings.Split(field, ",") {
+			name, val, _ := strings.Cut(strings.TrimSpace(d), "=")
+			if strings.EqualFold(strings.TrimSpace(name), "max-age") {
+				if n, err := strconv.ParseInt(strings.Trim(strings.TrimSpace(val), `"`), 10, 64); err == nil && n >= 0 {
+					v.MaxAge = p64(n * sec)
+				}
+			}
+		}
+	}
+
+	if x := h.Get("Expires"); x != "" {
+		if t, err := http.ParseTime(x); err == nil {
+			v.Expires = p64(t.Unix() * sec)
+		} else {
+			v.BadExp = true
+		}
+	}
+
+	if x := h.Get("Date"); x != "" {
+		if t, err := http.ParseTime(x); err == nil {
+			v.Date = p64(t.Unix() * sec)
+		}
+	}
+
+	if n, err := strconv.ParseInt(strings.TrimSpace(h.Get("Age")), 10, 64); err == nil && n >= 0 {
+		v.Age = n * sec
+	}
+
+	return v
+}
+
+func (v hvals) coq() string {
+	exp := "None"
+	if v.BadExp {
+		exp = "(Some None)"
+	} else if v.Expires != nil {
+		exp = "(Some " + optZ(v.Expires) + ")"
+	}
+
+	return vf.CoqApp("mkh", optZ(v.MaxAge), exp, optZ(v.Date), vf.CoqZ(v.Age))
+}
+
 type httpObs struct {
 	MethodOK bool   `json:"method_ok"`
 	Vary     bool   `json:"vary"`
 	Lookup   bool   `json:"lookup"`
 	Cachable bool   `json:"cachable"`
-	Life     *int64 `json:"life,omitempty"`
+	H        hvals  `json:"hvals"`
+	LibLife  *int64 `json:"lib_life,omitempty"`
+	Now      int64  `json:"now"`
 	Dmax     int64  `json:"dmax"`
+	TGet     int64  `json:"tget"`
+	NSets    int    `json:"nsets"`
 	Set      *int64 `json:"set,omitempty"`
 	Hit      bool   `json:"hit"`
 }
 
-func (e *env) runHTTP(c *c10Case) (httpObs, string) {
+func (e *env) runHTTP(c *c10Case) (httpObs, string, string) {
 	var o httpObs
+
+	timing := timingSkipped
 
 	for try := 0; try < maxTries; try++ {
 		be := e.newBackend(c.Backend)
 		rec := newRec(be.c)
 		ctx := cache.WithContext(context.Background(), rec)
 
-		now := time.Now()
-		hdr := c.Resp.header(now)
+		// the bracket starts before the headers are made: Date/Expires are relative to this clock reading
+		t0 := time.Now()
+		hdr := c.Resp.header(t0)
 		stub := &stubTransport{make: func(n int64, req *http.Request) *http.Response {
 			return response(req, c.Resp.Status, hdr, fmt.Sprintf("body-%d", n))
 		}}
-		rt := &httpcache.RoundTripper{Transport: stub, DefaultCacheTTL: time.Duration(c.Dflt)}
 
-		// the bracket starts before the oracle call: an Expires header without a Date header is an absolute
-		// instant, so its lifetime shrinks between the oracle's clock reading and the one inside cacheResponse
-		t0 := time.Now()
+		if c.Fail2 {
+			stub.failFrom = 2
+		}
+
+		rt := &httpcache.RoundTripper{Transport: stub, DefaultCacheTTL: time.Duration(c.Dflt)}
 
 		cachable, life := oracle(c.Resp.request(ctx, 1), c.Resp.Status, hdr)
 
@@ -1045,49 +1172,69 @@ func (e *env) runHTTP(c *c10Case) (httpObs, string) {
 
 		resp, err := rt.RoundTrip(c.Resp.request(ctx, 1))
 		if err != nil {
-			e.t.Fatal(err)
+			panic(err)
 		}
 
 		io.Copy(io.Discard, resp.Body)
 
-		lookup, _, _, set := rec.summary()
+		sum := rec.summary()
+		dmax := int64(time.Since(t0))
+		flipped := time.Now().Unix() != t0.Unix()
+
+		// second request: immediately (in-memory) or after simulated time (miniredis)
+		tget := int64(0)
+		if be.mr != nil {
+			be.advance(time.Duration(c.Adv))
+			tget = c.Adv
+		}
 
 		rec.begin(1)
 
+		hit := false
+
 		resp, err = rt.RoundTrip(c.Resp.request(ctx, 1))
-		if err != nil {
-			e.t.Fatal(err)
+		if err == nil {
+			io.Copy(io.Discard, resp.Body)
+
+			hit = stub.calls.Load() == 1
+		} else if !errors.Is(err, errRemoteDown) {
+			panic(err)
 		}
 
-		io.Copy(io.Discard, resp.Body)
-
-		dmax := int64(time.Since(t0))
-		hit := stub.calls.Load() == 1
+		total := int64(time.Since(t0))
+		if be.mr == nil {
+			tget = total
+		}
 
 		be.close()
 
 		o = httpObs{
 			MethodOK: c.Resp.Method == http.MethodGet || c.Resp.Method == http.MethodHead, Vary: c.Resp.Vary != "",
-			Lookup: lookup, Cachable: cachable, Life: life, Dmax: dmax, Set: set, Hit: hit,
+			Lookup: sum.lookup, Cachable: cachable, H: parseHvals(hdr), LibLife: life, Now: t0.UnixNano(), Dmax: dmax,
+			TGet: tget, NSets: sum.nsets, Set: sum.set, Hit: hit,
 		}
 
-		// lifetime too close to the measured uncertainty (positive but tiny): repeat
-		l := life
-		if l == nil && c.Dflt != 0 {
-			l = p64(c.Dflt)
-		}
-
-		if cachable && l != nil && *l > 0 && *l <= 4*dmax+2*msec {
+		// the apparent age (now - Date, whole seconds) must be the same at both ends of the bracket; a stored ttl
+		// must not be within the measured uncertainty of the second request's instant
+		if flipped || total > 4*sec {
 			continue
 		}
+
+		if sum.set != nil && *sum.set > 0 {
+			if d := *sum.set - tget; d > -4*total-2*msec && d < 4*total+2*msec {
+				continue
+			}
+		}
+
+		timing = timingOK
 
 		break
 	}
 
-	coq := vf.CoqApp("CHttp", coqBackend(c.Backend), vf.CoqBool(o.MethodOK), vf.CoqBool(o.Vary), vf.CoqBool(o.Cachable),
-		optZ(o.Life), vf.CoqZ(c.Dflt), vf.CoqZ(o.Dmax), vf.CoqBool(o.Lookup), optZ(o.Set), vf.CoqBool(o.Hit))
+	coq := vf.CoqApp("CHttp", coqBackend(c.Backend), vf.CoqBool(o.Cachable), o.H.coq(), vf.CoqZ(c.Dflt), vf.CoqZ(o.Now),
+		vf.CoqZ(o.Dmax), vf.CoqZ(o.TGet), vf.CoqZ(int64(o.NSets)), optZ(o.Set), vf.CoqBool(o.Hit))
 
-	return o, coq
+	return o, coq, timing
 }
 
 // ---------------------------------------------------------------- kind cache
@@ -1231,6 +1378,7 @@ func (e *env) runHist(c *c10Case) ([]evObs, string, bool) {
 		sim := base.UnixNano()
 		marks := map[int]setMark{}
 		maxDur := int64(0)
+		xsets := 0
 
 		var (
 			evs, outs []string
@@ -1242,6 +1390,7 @@ func (e *env) runHist(c *c10Case) ([]evObs, string, bool) {
 
 		isHTTP := c.Mech == "http" || c.Mech == "ctxhttp"
 		caseID := e.ctr.Add(1)
+		tab := fmt.Sprintf("h%d", caseID)
 
 		if c.Mech == "http" {
 			stub = &stubTransport{make: func(n int64, req *http.Request) *http.Response {
@@ -1249,9 +1398,6 @@ func (e *env) runHist(c *c10Case) ([]evObs, string, bool) {
 			}}
 			rt = &httpcache.RoundTripper{Transport: stub, DefaultCacheTTL: time.Duration(c.Dflt)}
 		}
-
-		// expiry reported by the remote system for introspection: far away
-		farExp := p64(base.Unix() + 7200)
 
 		obs, ambi = nil, false
 
@@ -1270,7 +1416,8 @@ func (e *env) runHist(c *c10Case) ([]evObs, string, bool) {
 
 			start := time.Now()
 
-			if c.Mech == "ctxhttp" {
+			switch c.Mech {
+			case "ctxhttp":
 				// the real client wiring: contextualizer -> Endpoint.CreateClient -> httpcache.RoundTripper -> httptest server
 				path := fmt.Sprintf("h%d-%d", caseID, ev.Key)
 				e.ccTab.Store("/cc/"+path, ev.Resp.CC)
@@ -1309,7 +1456,7 @@ func (e *env) runHist(c *c10Case) ([]evObs, string, bool) {
 				if err = mech.Execute(newReq(ctx, nil), &subject.Subject{ID: path, Attributes: map[string]any{}}); err != nil {
 					panic(fmt.Sprintf("ctxhttp %+v: %v", c, err))
 				}
-			} else if c.Mech == "http" {
+			case "http":
 				curHdr, curStatus = ev.Resp.header(start), ev.Resp.Status
 				_, life := oracle(ev.Resp.request(ctx, ev.Key), curStatus, curHdr)
 
@@ -1329,15 +1476,50 @@ func (e *env) runHist(c *c10Case) ([]evObs, string, bool) {
 				}
 
 				io.Copy(io.Discard, resp.Body)
-			} else {
+			default:
+				// expiry the remote system reports, relative to the REAL clock (the mechanism reads the real clock);
+				// the model runs on the backend's clock (simulated for miniredis), so r_exp is shifted by the
+				// difference of the two clocks in whole seconds
+				sReal := start.Unix()
+
 				var exp *int64
-				if c.Mech == "intro" {
-					exp, rexp = farExp, farExp
+
+				switch {
+				case c.Mech == "cc":
+					if ev.Delta != nil {
+						exp = p64(*ev.Delta) // expires_in
+						rexp = p64(a + *ev.Delta*sec)
+					}
+				case secondsBased(c.Mech) && (c.Mech != "generic" || c.Session):
+					d := int64(7200)
+					if ev.Delta != nil {
+						d = *ev.Delta
+					}
+
+					exp = p64(sReal + d)
+					rexp = p64(*exp + (a/sec - sReal))
 				}
 
-				etxt, _, err := e.execOnce(ctx, c, ev.Key, exp)
+				if c.Mech == "jwtkey" {
+					e.setJWKS(exp, nil)
+				}
+
+				cc := *c
+				if c.Kind == "mix" {
+					// one prototype, a rule-level ttl per request (client credentials: Config.TTL per request)
+					cc.Rule = ev.Rule
+					if c.Mech == "cc" {
+						cc.Conf = ev.Conf
+					}
+				}
+
+				etxt, _, err := e.execOnce(ctx, &cc, ev.Key, exp, tab)
 				if err != nil || etxt != "" {
 					panic(fmt.Sprintf("hist %+v: %v %s", c, err, etxt))
+				}
+
+				if secondsBased(c.Mech) && time.Now().Unix() != sReal {
+					ambi = true // the clock second flipped during the request
 				}
 			}
 
@@ -1351,7 +1533,12 @@ func (e *env) runHist(c *c10Case) ([]evObs, string, bool) {
 				b = a + d
 			}
 
-			_, hit, origin, set := rec.summary()
+			sum := rec.summary()
+			hit, origin, set := sum.hit, sum.origin, sum.set
+
+			if hit {
+				xsets += sum.nsets
+			}
 
 			if m, ok := marks[ev.Key]; ok && be.mr == nil && ambiguous(m, a, b) {
 				ambi = true
@@ -1373,10 +1560,25 @@ func (e *env) runHist(c *c10Case) ([]evObs, string, bool) {
 				if stored {
 					marks[ev.Key] = setMark{a: a, b: b, ttl: *set}
 				}
+
+				// hypothesis of the soundness theorem: every ttl exceeds the measurement slack
+				if *set > 0 && *set <= d+2*msec {
+					ambi = true
+				}
 			}
 
 			obs = append(obs, evObs{T: a, Hit: hit, Origin: origin, Set: set, Exp: rexp})
-			evs = append(evs, vf.CoqApp("mkev", vf.CoqZ(a), vf.CoqZ(int64(ev.Key)), vf.CoqZ(int64(i)), optZ(rexp)))
+			if c.Kind == "mix" {
+				conf := c.Conf
+				if c.Mech == "cc" {
+					conf = ev.Conf
+				}
+
+				evs = append(evs, vf.CoqApp("mkmev", vf.CoqZ(a), vf.CoqZ(int64(ev.Key)), optZ(conf), optZ(ev.Rule), vf.CoqZ(int64(i)),
+					optZ(rexp)))
+			} else {
+				evs = append(evs, vf.CoqApp("mkev", vf.CoqZ(a), vf.CoqZ(int64(ev.Key)), vf.CoqZ(int64(i)), optZ(rexp)))
+			}
 
 			if hit {
 				outs = append(outs, vf.CoqApp("HHit", vf.CoqZ(int64(origin))))
@@ -1394,7 +1596,12 @@ func (e *env) runHist(c *c10Case) ([]evObs, string, bool) {
 			hk = vf.CoqApp("HMech", mechCoq[c.Mech], optZ(c.Conf), optZ(c.Rule))
 		}
 
-		coq = vf.CoqApp("CHist", coqBackend(c.Backend), hk, vf.CoqZ(maxDur+msec), vf.CoqList(evs), vf.CoqList(outs))
+		coq = vf.CoqApp("CHist", coqBackend(c.Backend), hk, vf.CoqZ(maxDur+msec), vf.CoqZ(int64(xsets)), vf.CoqList(evs),
+			vf.CoqList(outs))
+		if c.Kind == "mix" {
+			coq = vf.CoqApp("CMix", coqBackend(c.Backend), mechCoq[c.Mech], vf.CoqZ(maxDur+msec), vf.CoqZ(int64(xsets)),
+				vf.CoqList(evs), vf.CoqList(outs))
+		}
 
 		if !ambi {
 			break
@@ -1424,48 +1631,9 @@ func genDelta(r *vf.Rand, leeway int64) *int64 {
 	}
 }
 
-func genFn(r *vf.Rand) c10Case {
-	c := c10Case{Kind: "fn", Mech: vf.Pick(r, []string{"intro", "intro", "jwtkey", "jwtkey", "generic", "cc", "cc"})}
-	leeway := int64(10)
-
-	if c.Mech == "cc" {
-		leeway = 5
-	}
-
-	c.Delta = genDelta(r, leeway)
-
-	switch {
-	case r.Chance(20) && c.Mech != "generic":
-		c.St = nil
-	case r.Chance(30) && c.Delta != nil:
-		// configured ttl next to the remaining lifetime
-		c.St = p64((*c.Delta-leeway)*sec + int64(r.Range(-1, 1))*sec)
-	default:
-		c.St = p64(vf.Pick(r, stGrid))
-	}
-
-	if c.Mech == "generic" {
-		c.Session = !r.Chance(15)
-		if c.St == nil {
-			c.St = p64(0)
-		}
-	}
-
-	if c.Mech == "cc" && c.Delta != nil {
-		// nanoseconds; a sub-second offset in a share of the cases
-		d := *c.Delta * sec
-		if r.Chance(30) {
-			d += vf.Pick(r, []int64{-500 * msec, -50 * msec, 50 * msec, 500 * msec})
-		}
-
-		c.Delta = p64(d)
-	}
-
-	return c
-}
-
 func (e *env) genExec(r *vf.Rand) c10Case {
-	c := c10Case{Kind: "exec", Mech: vf.Pick(r, []string{"intro", "intro", "jwtkey", "generic", "generic", "cc", "jwtfin", "remote", "remote", "ctx"})}
+	c := c10Case{Kind: "exec", Mech: vf.Pick(r, []string{"intro", "intro", "intro", "jwtkey", "jwtkey", "jwtkey", "generic",
+		"generic", "cc", "cc", "jwtfin", "remote", "remote", "ctx"})}
 	pal := e.pal[:9] // second-scale values only
 
 	switch c.Mech {
@@ -1486,10 +1654,16 @@ func (e *env) genExec(r *vf.Rand) c10Case {
 			if r.Chance(55) {
 				c.Rule = vf.Pick(r, pal[1:])
 			}
+		} else if r.Chance(50) {
+			c.Conf = p64(vf.Pick(r, stGrid)) // Config.TTL takes any value
 		}
 
 		if r.Chance(85) {
 			c.Delta = p64(vf.Pick(r, []int64{1, 3, 4, 5, 6, 7, 10, 60, 299, 300, 305, 306, 3600}) * sec)
+			if !c.ViaFin && r.Chance(30) {
+				// configured ttl next to the remaining lifetime
+				c.Conf = p64(*c.Delta - 5*sec + int64(r.Range(-1, 1))*sec)
+			}
 		}
 
 		return c
@@ -1498,7 +1672,11 @@ func (e *env) genExec(r *vf.Rand) c10Case {
 	c.Conf = vf.Pick(r, pal)
 	c.RuleOther = r.Chance(30)
 
-	if r.Chance(55) {
+	switch {
+	case r.Chance(30):
+		// the whole grid of ttl values through the rule level (1 ns .. 1 h, zero, negative)
+		c.Rule = p64(vf.Pick(r, stGrid))
+	case r.Chance(50):
 		c.Rule = vf.Pick(r, pal[1:])
 		if r.Chance(25) {
 			c.Rule = p64(0)
@@ -1515,9 +1693,15 @@ func (e *env) genExec(r *vf.Rand) c10Case {
 		}
 	}
 
-	if c.Delta != nil && r.Chance(25) && *c.Delta > 11 {
+	if c.Delta != nil && r.Chance(30) && *c.Delta > 10 {
 		// rule-level ttl next to the remaining lifetime
 		c.Rule = p64((*c.Delta - 10 + int64(r.Range(-1, 1))) * sec)
+	}
+
+	if c.Mech == "jwtkey" && c.Delta != nil && r.Chance(65) {
+		// x5c chain [leaf, root]: the root expires long after, shortly after, or before the leaf
+		c.Chain = p64(vf.Pick(r, []int64{10 * 365 * 86400, 10 * 365 * 86400, *c.Delta + 3600, *c.Delta + 20, *c.Delta - 5, 5, -100}))
+		c.Validate = r.Chance(45)
 	}
 
 	return c
@@ -1551,6 +1735,11 @@ func genResp(r *vf.Rand, cachableBias bool) *c10Resp {
 		p.Vary = vf.Pick(r, []string{"Accept", "Accept-Encoding, Cookie", "*"})
 	}
 
+	if r.Chance(25) {
+		// the response has been sitting in an intermediary cache
+		p.Age = vf.Pick(r, []string{"0", "1", "30", "59", "60", "3599", "3600", "7200", "abc", "-5"})
+	}
+
 	if r.Chance(45) {
 		if r.Chance(15) {
 			p.ExpRaw = vf.Pick(r, []string{"0", "-1", "garbage"})
@@ -1574,10 +1763,17 @@ func genResp(r *vf.Rand, cachableBias bool) *c10Resp {
 }
 
 func genHTTP(r *vf.Rand) c10Case {
-	return c10Case{
-		Kind: "http", Backend: vf.Pick(r, []string{"mem", "mem", "redis"}), Resp: genResp(r, r.Chance(40)),
-		Dflt: vf.Pick(r, []int64{0, 0, 5 * sec, 3600 * sec, -sec}),
+	c := c10Case{
+		Kind: "http", Backend: vf.Pick(r, []string{"mem", "mem", "redis", "redis"}), Resp: genResp(r, r.Chance(45)),
+		Dflt:  vf.Pick(r, []int64{0, 0, 5 * sec, 3600 * sec, -sec}),
+		Fail2: r.Chance(20),
 	}
+
+	if c.Backend == "redis" {
+		c.Adv = vf.Pick(r, []int64{0, 0, 500 * msec, 1500 * msec, 30500 * msec, 7200 * sec})
+	}
+
+	return c
 }
 
 func genCache(r *vf.Rand, backend string) c10Case {
@@ -1657,33 +1853,148 @@ func (e *env) genHist(r *vf.Rand, backend string) c10Case {
 		return c
 	}
 
-	// (the introspection authenticator is included since 9b4883e made its cache key independent of map order)
-	c.Mech = vf.Pick(r, []string{"remote", "ctx", "generic", "intro"})
-
-	// ttl in force: 0 (disabled) | short | long, through the prototype or a rule-level override
-	short := p64(60 * msec)
+	// every mechanism the statement names runs its HIT path over time here (also the jwt finalizer, client
+	// credentials and the JWK cache); the JWK cache needs the shared JWKS state, i.e. the sequential redis cases
+	mechs := []string{"remote", "ctx", "generic", "intro", "jwtfin", "cc"}
 	if backend == "redis" {
-		short = vf.Pick(r, []*int64{p64(100 * msec), p64(sec)})
+		mechs = append(mechs, "jwtkey", "jwtkey")
 	}
 
-	ttl := vf.Pick(r, []*int64{p64(0), short, short, short, p64(3600 * sec)})
+	c.Mech = vf.Pick(r, mechs)
+	c.RuleOther = r.Chance(30) && c.Mech != "cc"
 
-	c.RuleOther = r.Chance(30)
+	// expiry information near now (redis only: simulated time makes seconds cheap)
+	var near []int64
 
-	if r.Chance(50) {
-		c.Conf = ttl
-	} else {
-		c.Conf = vf.Pick(r, []*int64{nil, p64(0), p64(30 * sec)})
-		c.Rule = ttl
+	if backend == "redis" && r.Chance(50) {
+		switch c.Mech {
+		case "intro", "jwtkey":
+			near = []int64{9, 11, 12, 13}
+		case "generic":
+			c.Session = true
+			near = []int64{9, 11, 12, 13}
+		case "cc":
+			near = []int64{4, 6, 7, 8} // expires_in
+		}
+	}
+
+	switch {
+	case c.Mech == "jwtfin":
+		// cache ttl = ttl - 5 s: 1 s, 25 s, none (ttl <= 5 s)
+		ttl := vf.Pick(r, []*int64{p64(6 * sec), p64(6 * sec), p64(30 * sec), p64(3 * sec)})
+		if r.Chance(50) {
+			c.Conf = ttl
+		} else {
+			c.Conf, c.Rule = vf.Pick(r, []*int64{nil, p64(30 * sec)}), ttl
+		}
+	case near != nil:
+		// the expiry decides: ttl not configured, or longer than what is left
+		c.Conf = vf.Pick(r, []*int64{nil, p64(3600 * sec), p64(30 * sec)})
+	default:
+		// ttl in force: 0 (disabled) | short | long, through the prototype or a rule-level override
+		short := p64(60 * msec)
+		if backend == "redis" {
+			short = vf.Pick(r, []*int64{p64(100 * msec), p64(sec)})
+		}
+
+		ttl := vf.Pick(r, []*int64{p64(0), short, short, short, p64(3600 * sec)})
+
+		if r.Chance(50) || c.Mech == "cc" {
+			c.Conf = ttl
+		} else {
+			c.Conf = vf.Pick(r, []*int64{nil, p64(0), p64(30 * sec)})
+			c.Rule = ttl
+		}
 	}
 
 	sleeps := 0
 
 	for i := 0; i < n; i++ {
 		ev := c10Ev{Key: r.Range(1, 2)}
-		if backend == "redis" {
+
+		switch {
+		case backend == "redis" && (near != nil || c.Mech == "jwtfin"):
+			ev.Adv = vf.Pick(r, []int64{0, 0, 450 * msec, 1450 * msec, 2450 * msec})
+		case backend == "redis":
 			ev.Adv = vf.Pick(r, []int64{0, 0, 40 * msec, 150 * msec, 1450 * msec})
-		} else if i > 0 && sleeps < 2 && r.Chance(35) {
+		case i > 0 && sleeps < 2 && r.Chance(35):
+			ev.Adv = 180 * msec
+			sleeps++
+		}
+
+		if c.Mech == "jwtkey" {
+			ev.Key = 1 // one JWKS, one kid: the JWK cache has a single entry
+		}
+
+		if near != nil {
+			ev.Delta = p64(vf.Pick(r, near))
+		} else if c.Mech == "cc" {
+			ev.Delta = p64(3600)
+		}
+
+		c.Evs = append(c.Evs, ev)
+	}
+
+	return c
+}
+
+// genMix: requests of one mechanism under different rules (prototype cache_ttl x rule-level cache_ttl) hitting the same
+// cache entries: does a request under a short ttl get an entry a request under a long ttl stored?
+func (e *env) genMix(r *vf.Rand, backend string) c10Case {
+	c := c10Case{Kind: "mix", Backend: backend}
+
+	mechs := []string{"intro", "generic", "cc", "remote", "ctx", "jwtfin"}
+	if backend == "redis" {
+		mechs = append(mechs, "jwtkey")
+	}
+
+	c.Mech = vf.Pick(r, mechs)
+
+	short, long := p64(60*msec), p64(3600*sec)
+	if backend == "redis" {
+		short = vf.Pick(r, []*int64{p64(100 * msec), p64(sec)})
+	}
+
+	// the prototype's ttl (client credentials have no prototype: Config.TTL per request)
+	switch c.Mech {
+	case "jwtfin":
+		c.Conf = vf.Pick(r, []*int64{p64(6 * sec), p64(30 * sec)})
+	case "cc":
+	default:
+		c.Conf = vf.Pick(r, []*int64{long, long, p64(30 * sec), nil, p64(0)})
+	}
+
+	n := r.Range(3, 6)
+	sleeps := 0
+
+	for i := 0; i < n; i++ {
+		ev := c10Ev{Key: r.Range(1, 2)}
+
+		switch {
+		case c.Mech == "jwtfin":
+			// cache ttl 1 s or 25 s
+			if r.Chance(60) {
+				ev.Rule = vf.Pick(r, []*int64{p64(6 * sec), p64(30 * sec)})
+			}
+		case c.Mech == "cc":
+			ev.Conf = vf.Pick(r, []*int64{short, long, long, nil, p64(0)})
+			ev.Delta = p64(3600)
+		default:
+			if r.Chance(60) {
+				ev.Rule = vf.Pick(r, []*int64{short, short, long, p64(0)})
+			}
+		}
+
+		if c.Mech == "jwtkey" {
+			ev.Key = 1
+		}
+
+		switch {
+		case backend == "redis" && c.Mech == "jwtfin":
+			ev.Adv = vf.Pick(r, []int64{0, 0, 450 * msec, 1450 * msec})
+		case backend == "redis":
+			ev.Adv = vf.Pick(r, []int64{0, 0, 40 * msec, 150 * msec, 1450 * msec})
+		case i > 0 && sleeps < 2 && r.Chance(35):
 			ev.Adv = 180 * msec
 			sleeps++
 		}
@@ -1702,15 +2013,12 @@ func corpus() []c10Case {
 	pastExp := &c10Resp{Method: "GET", Status: 200, Date: p64(0), Expires: p64(-60)}
 
 	return []c10Case{
-		// C10-F1: expiry inside the leeway + configured (or default) ttl => full ttl
-		{Kind: "fn", Mech: "intro", St: p64(300 * sec), Delta: p64(5)},
-		{Kind: "fn", Mech: "intro", St: p64(300 * sec), Delta: p64(10)},
-		{Kind: "fn", Mech: "intro", St: p64(300 * sec), Delta: p64(11)},
-		{Kind: "fn", Mech: "intro", St: p64(300 * sec), Delta: p64(-5)},
-		{Kind: "fn", Mech: "jwtkey", St: nil, Delta: p64(5)},
-		{Kind: "fn", Mech: "jwtkey", St: nil, Delta: p64(-3600)},
-		{Kind: "fn", Mech: "cc", St: p64(300 * sec), Delta: p64(3 * sec)},
-		{Kind: "fn", Mech: "generic", St: p64(300 * sec), Session: true, Delta: p64(5)},
+		// C10-F1 (637ae67): expiry inside the leeway + configured (or default) ttl => full ttl
+		{Kind: "exec", Mech: "intro", Conf: p64(300 * sec), Delta: p64(10)},
+		{Kind: "exec", Mech: "intro", Conf: p64(300 * sec), Delta: p64(11)},
+		{Kind: "exec", Mech: "intro", Conf: p64(300 * sec), Delta: p64(-5)},
+		{Kind: "exec", Mech: "jwtkey", Conf: nil, Delta: p64(-3600)},
+		{Kind: "exec", Mech: "generic", Conf: p64(300 * sec), Session: true, Delta: p64(5)},
 		{Kind: "exec", Mech: "intro", Conf: p64(300 * sec), Delta: p64(5)},
 		{Kind: "exec", Mech: "jwtkey", Conf: nil, Delta: p64(5)},
 		{Kind: "exec", Mech: "cc", Conf: p64(300 * sec), Delta: p64(3 * sec)},
@@ -1721,6 +2029,35 @@ func corpus() []c10Case {
 		{Kind: "http", Backend: "mem", Resp: maxAge0},
 		{Kind: "http", Backend: "mem", Resp: pastExp},
 		{Kind: "http", Backend: "redis", Resp: maxAge0},
+		// C10-F4 (open): the response aged before it arrived / unparsable Expires + default ttl
+		{Kind: "http", Backend: "mem", Resp: &c10Resp{Method: "GET", Status: 200, CC: "max-age=3600", Age: "3599"}},
+		{Kind: "http", Backend: "redis", Adv: 30500 * msec, Resp: &c10Resp{Method: "GET", Status: 200, CC: "max-age=3600", Age: "3599"}},
+		{Kind: "http", Backend: "mem", Resp: &c10Resp{Method: "GET", Status: 200, CC: "max-age=60", Date: p64(-3600)}},
+		{Kind: "http", Backend: "mem", Resp: &c10Resp{Method: "GET", Status: 200, Date: p64(0), Expires: p64(3600), Age: "7200"}},
+		{Kind: "http", Backend: "mem", Dflt: 5 * sec, Resp: &c10Resp{Method: "GET", Status: 200, ExpRaw: "0"}},
+		{Kind: "http", Backend: "mem", Resp: &c10Resp{Method: "GET", Status: 200, CC: "max-age=3600", Age: "60"}},
+		// remote system down on the second request: nothing but a fresh entry may answer
+		{Kind: "http", Backend: "redis", Adv: 1500 * msec, Fail2: true, Resp: &c10Resp{Method: "GET", Status: 200, CC: "max-age=1"}},
+		{Kind: "http", Backend: "redis", Adv: 500 * msec, Fail2: true, Resp: &c10Resp{Method: "GET", Status: 200, CC: "max-age=1"}},
+		// x5c chains: the leaf's NotAfter bounds the JWK cache ttl, whatever the other certificates say
+		{Kind: "exec", Mech: "jwtkey", Conf: nil, Delta: p64(30), Chain: p64(10 * 365 * 86400)},
+		{Kind: "exec", Mech: "jwtkey", Conf: nil, Delta: p64(30), Chain: p64(10 * 365 * 86400), Validate: true},
+		{Kind: "exec", Mech: "jwtkey", Conf: nil, Delta: p64(3600), Chain: p64(15)},
+		{Kind: "exec", Mech: "jwtkey", Conf: nil, Delta: p64(-5), Chain: p64(3600), Validate: true},
+		// C10-F5 (open): a request under `cache_ttl: 60ms` is answered from the entry a request under 1 h stored 180 ms ago
+		{Kind: "mix", Mech: "intro", Backend: "mem", Conf: p64(3600 * sec), Evs: []c10Ev{{Key: 1}, {Key: 1, Rule: p64(60 * msec), Adv: 180 * msec}}},
+		{Kind: "mix", Mech: "generic", Backend: "mem", Conf: p64(3600 * sec), Evs: []c10Ev{{Key: 1}, {Key: 1, Rule: p64(60 * msec), Adv: 180 * msec}}},
+		{Kind: "mix", Mech: "jwtkey", Backend: "redis", Conf: p64(3600 * sec), Evs: []c10Ev{{Key: 1}, {Key: 1, Rule: p64(sec), Adv: 1450 * msec}}},
+		{Kind: "mix", Mech: "cc", Backend: "redis", Evs: []c10Ev{{Key: 1, Conf: p64(3600 * sec), Delta: p64(3600)}, {Key: 1, Conf: p64(sec), Adv: 1450 * msec, Delta: p64(3600)}}},
+		// ... while the keys of the remote authorizer, the contextualizer and the jwt finalizer contain the ttl
+		{Kind: "mix", Mech: "remote", Backend: "mem", Conf: p64(3600 * sec), Evs: []c10Ev{{Key: 1}, {Key: 1, Rule: p64(60 * msec), Adv: 180 * msec}, {Key: 1}}},
+		{Kind: "mix", Mech: "jwtfin", Backend: "redis", Conf: p64(30 * sec), Evs: []c10Ev{{Key: 1}, {Key: 1, Rule: p64(6 * sec), Adv: 1450 * msec}, {Key: 1}}},
+		// hit paths over time: jwt finalizer (ttl 6 s => cached 1 s), client credentials, JWK cache, expiry near
+		{Kind: "hist", Mech: "jwtfin", Backend: "redis", Conf: p64(6 * sec), Evs: []c10Ev{{Key: 1}, {Key: 1, Adv: 450 * msec}, {Key: 1, Adv: 450 * msec}, {Key: 1, Adv: 450 * msec}}},
+		{Kind: "hist", Mech: "cc", Backend: "redis", Evs: []c10Ev{{Key: 1, Delta: p64(7)}, {Key: 1, Adv: 1450 * msec, Delta: p64(7)}, {Key: 1, Adv: 1450 * msec, Delta: p64(7)}}},
+		{Kind: "hist", Mech: "jwtkey", Backend: "redis", Evs: []c10Ev{{Key: 1, Delta: p64(12)}, {Key: 1, Adv: 1450 * msec, Delta: p64(12)}, {Key: 1, Adv: 1450 * msec, Delta: p64(12)}}},
+		{Kind: "hist", Mech: "intro", Backend: "redis", Conf: p64(3600 * sec), Evs: []c10Ev{{Key: 1, Delta: p64(12)}, {Key: 1, Adv: 1450 * msec, Delta: p64(12)}, {Key: 1, Adv: 1450 * msec, Delta: p64(12)}}},
+		{Kind: "hist", Mech: "generic", Session: true, Backend: "redis", Conf: p64(3600 * sec), Evs: []c10Ev{{Key: 1, Delta: p64(11)}, {Key: 1, Adv: 450 * msec, Delta: p64(11)}, {Key: 1, Adv: 1450 * msec, Delta: p64(11)}}},
 		// since 12fdf68: no lookup and no store for other methods, no store for responses with Vary
 		{Kind: "http", Backend: "mem", Resp: &c10Resp{Method: "POST", Status: 200, CC: "max-age=3600", Date: p64(0)}},
 		{Kind: "http", Backend: "mem", Resp: &c10Resp{Method: "HEAD", Status: 200, CC: "max-age=3600", Date: p64(0)}},
@@ -1759,7 +2096,7 @@ func corpus() []c10Case {
 
 func nontrivial(c *c10Case) bool {
 	switch c.Kind {
-	case "fn", "exec":
+	case "exec":
 		lee := int64(20)
 		unit := int64(1)
 
@@ -1771,7 +2108,7 @@ func nontrivial(c *c10Case) bool {
 			return true
 		}
 
-		for _, v := range []*int64{c.St, c.Conf, c.Rule} {
+		for _, v := range []*int64{c.Conf, c.Rule} {
 			if v != nil && *v <= 0 {
 				return true
 			}
@@ -1779,7 +2116,7 @@ func nontrivial(c *c10Case) bool {
 
 		return c.Rule != nil
 	case "http":
-		return c.Resp.CC != "" || c.Resp.Expires != nil || c.Resp.ExpRaw != "" || c.Dflt != 0
+		return c.Resp.CC != "" || c.Resp.Expires != nil || c.Resp.ExpRaw != "" || c.Dflt != 0 || c.Resp.Age != ""
 	case "cache":
 		seen := map[int]bool{}
 
@@ -1792,7 +2129,7 @@ func nontrivial(c *c10Case) bool {
 		}
 
 		return false
-	case "hist":
+	case "hist", "mix":
 		seen := map[int]bool{}
 
 		for _, ev := range c.Evs {
@@ -1833,8 +2170,7 @@ func tags(c *c10Case, out any) []string {
 		t = append(t, "backend:"+c.Kind+"/"+c.Backend)
 	}
 
-	switch c.Kind {
-	case "fn", "exec":
+	if c.Kind == "exec" {
 		unit := int64(1)
 		if c.Mech == "cc" {
 			unit = sec
@@ -1855,20 +2191,14 @@ func tags(c *c10Case, out any) []string {
 			t = append(t, "expiry:far")
 		}
 
-		if c.Kind == "fn" {
-			t = append(t, "ttl:"+bucket(c.St, sec))
-		} else {
-			t = append(t, "conf:"+bucket(c.Conf, sec), "rule:"+bucket(c.Rule, sec))
+		t = append(t, "conf:"+bucket(c.Conf, sec), "rule:"+bucket(c.Rule, sec))
+
+		if c.Mech == "jwtkey" {
+			t = append(t, fmt.Sprintf("jwk:chain=%t/validate=%t", c.Chain != nil, c.Validate))
 		}
 	}
 
 	switch o := out.(type) {
-	case fnObs:
-		if o.TTL > 0 {
-			t = append(t, "site:getCacheTTL/"+c.Mech+"/store")
-		} else {
-			t = append(t, "site:getCacheTTL/"+c.Mech+"/nostore")
-		}
 	case execObs:
 		t = append(t, fmt.Sprintf("site:exec/%s/lookup=%t/set=%t", c.Mech, o.Lookup, o.Set != nil))
 		if !o.OK {
@@ -1876,27 +2206,33 @@ func tags(c *c10Case, out any) []string {
 		}
 	case httpObs:
 		life := "none"
-		if o.Life != nil {
+		if o.LibLife != nil {
 			life = "pos"
-			if *o.Life <= 0 {
+			if *o.LibLife <= 0 {
 				life = "nonpos"
 			}
 		}
 
 		t = append(t, fmt.Sprintf("site:cacheResponse/cachable=%t/life=%s/set=%t/hit=%t", o.Cachable, life, o.Set != nil, o.Hit),
-			fmt.Sprintf("site:cachedResponse/method_ok=%t/vary=%t/lookup=%t", o.MethodOK, o.Vary, o.Lookup))
+			fmt.Sprintf("site:cachedResponse/method_ok=%t/vary=%t/lookup=%t", o.MethodOK, o.Vary, o.Lookup),
+			fmt.Sprintf("http:aged=%t/bad_expires=%t/fail2=%t/adv=%t", o.H.Age > 0 || (o.H.Date != nil && *o.H.Date < o.Now-sec),
+				o.H.BadExp, c.Fail2, c.Adv > 0))
 	case []opObs:
 		t = append(t, "site:"+c.Backend+".Get/Set")
 	case []evObs:
-		hits := 0
+		hits, near := 0, false
 
-		for _, e := range o {
+		for i, e := range o {
 			if e.Hit {
 				hits++
 			}
+
+			if i < len(c.Evs) && c.Evs[i].Delta != nil && *c.Evs[i].Delta < 100 {
+				near = true
+			}
 		}
 
-		t = append(t, fmt.Sprintf("hist:hits=%d", min(hits, 3)))
+		t = append(t, fmt.Sprintf("hist:hits=%d", min(hits, 3)), fmt.Sprintf("hist:expiry-near=%t", near))
 	}
 
 	return t
@@ -1909,6 +2245,10 @@ type job struct {
 	stream string
 	c      c10Case
 }
+
+// cases whose timing could not be pinned down (or that hit a harness error) are recorded, tagged and not judged;
+// more than this share of them makes the run fail
+const maxSkippedPercent = 5
 
 func TestVerifC10(t *testing.T) {
 	w := vf.NewWriter()
@@ -1934,13 +2274,11 @@ func TestVerifC10(t *testing.T) {
 		var c c10Case
 
 		switch k := i % 20; {
-		case k < 8:
-			c = genFn(r)
-		case k < 13:
+		case k < 11:
 			c = e.genExec(r)
-		case k < 16:
+		case k < 15:
 			c = genHTTP(r)
-		case k < 18:
+		case k < 17:
 			be := "redis"
 			if slow > 0 && r.Chance(25) {
 				be = "mem"
@@ -1948,20 +2286,30 @@ func TestVerifC10(t *testing.T) {
 			}
 
 			c = genCache(r, be)
-		default:
+		case k < 19:
 			be := "redis"
-			if slow > 0 && r.Chance(25) {
+			if slow > 0 && r.Chance(20) {
 				be = "mem"
 				slow--
 			}
 
 			c = e.genHist(r, be)
+		default:
+			be := "redis"
+			if slow > 0 && r.Chance(20) {
+				be = "mem"
+				slow--
+			}
+
+			c = e.genMix(r, be)
 		}
 
 		jobs = append(jobs, job{idx: len(jobs), stream: "generated", c: c})
 	}
 
 	results := make([]*vf.Obs, len(jobs))
+
+	var skipped, broken atomic.Int64
 
 	run := func(j job) {
 		if !vf.Want(j.idx) {
@@ -1971,29 +2319,45 @@ func TestVerifC10(t *testing.T) {
 		c := j.c
 
 		var (
-			out  any
-			coq  string
-			ambi bool
+			out    any
+			coq    string
+			ambi   bool
+			timing string
 		)
 
-		switch c.Kind {
-		case "fn":
-			out, coq = runFn(&c)
-		case "exec":
-			out, coq = e.runExec(&c)
-		case "http":
-			out, coq = e.runHTTP(&c)
-		case "cache":
-			out, coq, ambi = e.runCache(&c)
-		case "hist":
-			out, coq, ambi = e.runHist(&c)
-		}
+		// a harness error (panic) voids this case only: it is recorded as CBroken, which never passes
+		func() {
+			defer func() {
+				if p := recover(); p != nil {
+					out, coq, ambi, timing = map[string]any{"harness_error": fmt.Sprint(p)}, "CBroken", false, timingOK
+					broken.Add(1)
+				}
+			}()
+
+			switch c.Kind {
+			case "exec":
+				out, coq, timing = e.runExec(&c)
+			case "http":
+				out, coq, timing = e.runHTTP(&c)
+			case "cache":
+				out, coq, ambi = e.runCache(&c)
+			case "hist", "mix":
+				out, coq, ambi = e.runHist(&c)
+			}
+		}()
 
 		tg := tags(&c, out)
-		if ambi {
+		if ambi || timing != timingOK {
 			// timing could not be pinned down after several attempts: the case is recorded but not judged
 			tg = append(tg, "skipped:ambiguous-timing")
 			coq = "(CCache Mem [])"
+			ambi = true
+
+			skipped.Add(1)
+		}
+
+		if coq == "CBroken" {
+			tg = append(tg, "broken:harness-error")
 		}
 
 		results[j.idx] = &vf.Obs{I: j.idx, Stream: j.stream, In: c, Out: out, Coq: coq, Nontrivial: nontrivial(&c) && !ambi, Tags: tg}
@@ -2003,7 +2367,7 @@ func TestVerifC10(t *testing.T) {
 	var sleepers []job
 
 	for _, j := range jobs {
-		if (j.c.Kind == "cache" || j.c.Kind == "hist") && j.c.Backend == "mem" {
+		if (j.c.Kind == "cache" || j.c.Kind == "hist" || j.c.Kind == "mix") && j.c.Backend == "mem" {
 			sleepers = append(sleepers, j)
 
 			continue
@@ -2031,9 +2395,21 @@ func TestVerifC10(t *testing.T) {
 
 	wg.Wait()
 
+	total := 0
+
 	for _, o := range results {
 		if o != nil {
 			w.Put(*o)
+
+			total++
 		}
+	}
+
+	fmt.Printf("C10 driver: %d cases, %d skipped (timing), %d broken (harness error)\n", total, skipped.Load(), broken.Load())
+
+	if total > 20 && skipped.Load()*100 > int64(total)*maxSkippedPercent {
+		w.Close()
+		t.Fatalf("%d of %d cases skipped because their timing could not be pinned down (> %d %%): the run proves too little",
+			skipped.Load(), total, maxSkippedPercent)
 	}
 }
